@@ -1,5 +1,5 @@
 import sys, json, time, os
-sys.path.insert(0, '/verif')
+sys.path.insert(0, os.path.dirname(os.path.abspath(__file__)))
 from pyvc import contracts
 from pyvc.explore import Config
 cfg = Config()
